@@ -1329,7 +1329,7 @@ func (g *gen) fnPiece(depth int) {
 func (g *gen) multiStmtTagPiece(depth int) {
 	g.feat("multi_statement_tag")
 	tagLine := g.cur.line
-	g.cur.write("<%\n")
+	g.cur.write("<%" + []string{"", "", " ", "\t "}[g.intn("opentrail", 0, 3)] + "\n")
 	n := g.size("nstmts", 2, 4)
 	for i := 0; i < n; i++ {
 		if g.pct("stmtcomment", 50) {
@@ -1367,7 +1367,7 @@ func (g *gen) multiStmtTagPiece(depth int) {
 			}
 		}
 		g.pending = g.pending[:0]
-		g.cur.write("  " + stmt + "\n")
+		g.cur.write("  " + stmt + []string{"", "", " ", " \t", "   "}[g.intn("stmttrail", 0, 4)] + "\n")
 	}
 	g.cur.write("%>")
 }
@@ -1472,6 +1472,21 @@ func (g *gen) blockHelperPiece(depth int) {
 		g.nl()
 		sc := g.pushScope()
 		g.scope = append(g.scope, variable{name: "bw", k: kInt})
+		g.body("block-helper-block", depth-1, 2)
+		g.popScope(sc)
+		g.tag("<%", "}", "%>")
+		return
+	}
+	if g.pct("blockmethod", 12) {
+		// a Go METHOD that takes the helper context and runs its block, reached through an index or call chain
+		g.feat("block_method_through_chain")
+		s := g.newSite(pkBlock, "block-method-call", kAny)
+		// (not objs[0].Wrap: while an indexed callee is evaluated plush rebinds the indexed NAME to the element, so a
+		// block that reads objs would fail on the pinned tree — scope hygiene, C09's subject)
+		recv := []string{"obj.Self()", "obj", "obj.Self().Self()"}[g.intn("blockrecv", 0, 2)]
+		g.tag(g.outTag(), fmt.Sprintf("%s.Wrap(%d) {", recv, s.ID), "%>")
+		g.nl()
+		sc := g.pushScope()
 		g.body("block-helper-block", depth-1, 2)
 		g.popScope(sc)
 		g.tag("<%", "}", "%>")
@@ -1768,7 +1783,11 @@ func (g *gen) bigPiece() {
 // noisePiece: material that moves line numbers but contains no probes.
 func (g *gen) noisePiece() {
 	g.feat("noise")
-	switch g.intn("noise", 0, 25) {
+	switch g.intn("noise", 0, 27) {
+	case 26: // a backslash as the last character of a line inside a double-quoted string; blanks before in-tag newlines
+		g.cur.write("<% let " + g.fresh("ms") + " = \"line one \\\nline two\\\n\" %>\n<% let " + g.fresh("ms") + " = [1, \t\n 2 \n ] %>")
+	case 27: // a block opened at the end of a line with trailing blanks, closed on a later line
+		g.cur.write("<%= if (b1) { \t\n return \"kept\" \n } %>\n")
 	case 24: // an identifier with a dash and a digit in it ('-' is a letter for plush) directly followed by a newline
 		g.cur.write("<% let " + g.fresh("ms") + " = (zq-1\n == nil) %>\n<% let " + g.fresh("ms") + " = (zq-2-x9\n\n != 3) %>")
 	case 25: // numbers and dotted paths directly followed by a newline
@@ -1935,6 +1954,7 @@ func (g *gen) failingPiece() {
 		{"deep-method-on-unknown-identifier", "zq.a.b(1)"},
 		{"env-of-unset-variable", `env("VERIF_ENV_MISSING")`},
 		{"float-argument-for-int-parameter", "obj.Add(1.5, 1)"},
+		{"helper-panics", "ppanic()"},
 		{"int-argument-for-string-parameter", "obj.Greet(65)"},
 		{"json-of-func", "json(pv)"},
 		// operations on literals only (nothing of the context enters)
